@@ -614,6 +614,24 @@ func (e *enumerator) stmt(s ast.Stmt, p Path, depth int, k kont) {
 						c2 = e.c.Expand(c2)
 					}
 					if be, ok := ast.Unparen(c2).(*ast.BinaryExpr); ok && (be.Op == token.LAND || be.Op == token.LOR) {
+						// a conjunct that is a followed predicate helper (`for v == nil && budget.pause()`)
+						// has events of its own: the exit is split per conjunct so that they are on the path
+						followed := false
+						for _, cj := range flattenAnd(c2) {
+							if call, ok := ast.Unparen(cj).(*ast.CallExpr); ok && be.Op == token.LAND && depth < e.c.MaxInline && e.c.Info != nil {
+								if body := e.bodyOf(call); body != nil && singleResultReturns(body) {
+									followed = true
+								}
+							}
+						}
+						if followed {
+							e.cond(v.Cond, p3, depth, func(q Path, val bool) {
+								if !val {
+									after(append(q, Event{Kind: "ENDLOOP"}))
+								}
+							})
+							return
+						}
 						q := p3
 						if e.c.Cond != nil {
 							if ev := e.c.Cond(v.Cond, false); ev != nil {
